@@ -5,11 +5,25 @@ HERE = os.path.dirname(os.path.abspath(__file__))
 VERIF = os.path.dirname(HERE)
 meta = json.load(open(os.path.join(VERIF, 'manifest_meta.json')))
 props = [json.loads(l) for l in open(os.path.join(VERIF, 'properties.jsonl'))]
+
+
+def module_meta(pid):
+    """META dict literal of harness/props/<pid>.py (read with ast, the module is not imported)."""
+    import ast
+    path = os.path.join(HERE, 'props', pid.lower() + '.py')
+    if not os.path.exists(path):
+        return None
+    for node in ast.parse(open(path).read()).body:
+        if isinstance(node, ast.Assign) and any(getattr(t, 'id', None) == 'META' for t in node.targets):
+            return ast.literal_eval(node.value)
+    return None
+
+
 checks, na = [], []
 for p in props:
     pid = p['id']
-    m = meta['checks'].get(pid)
-    if m and os.path.exists(os.path.join(HERE, 'props', pid.lower() + '.py')):
+    m = module_meta(pid)
+    if m:
         checks.append({
             'property_id': pid,
             'quick_cmd': f'./check {pid} quick',
